@@ -380,6 +380,64 @@ fn exec_hex(ws: &[&str]) -> String {
             let be = hexstr(&n.to_be_bytes());
             format!("{} ; ok x{be} {n} x{be} {n}", r.unwrap_or_else(|| "panic".into()))
         }
+        ["ofint", w, n] => {
+            // From<i8> / From<i16> / From<i32> (and From<f32> at four bytes) of the bit pattern
+            let (Ok(w), Ok(n)) = (w.parse::<u32>(), n.parse::<u64>()) else { return bad() };
+            if !(w == 1 || w == 2 || w == 4) || (n >> (8 * w)) != 0 {
+                return bad();
+            }
+            let r = guard(|| match w {
+                1 => format!("ok x{} -", hexstr(Hex::from(n as u8 as i8).bytes())),
+                2 => format!("ok x{} -", hexstr(Hex::from(n as u16 as i16).bytes())),
+                _ => format!("ok x{} x{}", hexstr(Hex::from(n as u32 as i32).bytes()), hexstr(Hex::from(f32::from_bits(n as u32)).bytes())),
+            });
+            let be = hexstr(&n.to_be_bytes()[(8 - w as usize)..]);
+            let f = if w == 4 { format!("x{be}") } else { "-".to_string() };
+            format!("{} ; ok x{be} {f}", r.unwrap_or_else(|| "panic".into()))
+        }
+        ["ofbool", b] => {
+            if *b != "0" && *b != "1" {
+                return bad();
+            }
+            let v = *b == "1";
+            let r = guard(|| {
+                let h = Hex::from(v);
+                format!("ok x{} {}", hexstr(h.bytes()), h.to_bool())
+            });
+            format!("{} ; ok x{} {v}", r.unwrap_or_else(|| "panic".into()), if v { "01" } else { "00" })
+        }
+        ["bool", h] => {
+            // to_bool (panics on the empty byte string) and is_empty
+            let (Some(x), Some(b)) = (parse_hex_tok(h), tok_bytes(h)) else { return bad() };
+            let x2 = x.clone();
+            let tb = guard(move || x2.to_bool()).map_or("panic".to_string(), |v| v.to_string());
+            let ie = guard(move || x.is_empty()).map_or("panic".to_string(), |v| v.to_string());
+            format!("{tb} {ie} ; {} {}", b.first().map_or("panic".to_string(), |v| (*v == 1).to_string()), b.is_empty())
+        }
+        ["utf8", h] => {
+            // to_utf8: the text, or Err when the bytes are not UTF-8
+            let (Some(x), Some(b)) = (parse_hex_tok(h), tok_bytes(h)) else { return bad() };
+            let l = match guard(|| x.to_utf8()) {
+                None => "panic".to_string(),
+                Some(Err(_)) => "err".to_string(),
+                Some(Ok(t)) => format!("ok {}", show_text_tok(&t)),
+            };
+            let r = match std::str::from_utf8(&b) {
+                Err(_) => "err".to_string(),
+                Ok(t) => format!("ok {}", show_text_tok(t)),
+            };
+            format!("{l} ; {r}")
+        }
+        ["ofstr", t] => {
+            // from_str_bytes, then to_utf8 of the result
+            let Some(t) = parse_text_tok(t) else { return bad() };
+            let l = guard(|| {
+                let h = Hex::from_str_bytes(&t);
+                let back = h.to_utf8().map(|u| show_text_tok(&u)).unwrap_or_else(|_| "err".into());
+                format!("ok x{} {back}", hexstr(h.bytes()))
+            });
+            format!("{} ; ok x{} {}", l.unwrap_or_else(|| "panic".into()), hexstr(t.as_bytes()), show_text_tok(&t))
+        }
         ["concat", a, b] => {
             let (Some(x), Some(y), Some(bx), Some(by)) = (parse_hex_tok(a), parse_hex_tok(b), tok_bytes(a), tok_bytes(b)) else { return bad() };
             let r = guard(|| {
